@@ -496,7 +496,12 @@ func (rw *rewriter) selectStmt(s *ast.SelectStmt, label string, add func(p, e to
 	all := append([]string{def}, cases...)
 	head := fmt.Sprintf("{ %s%sswitch %s.Select(%s) {", hoist.String(), label, rw.use("vrt"), strings.Join(all, ", "))
 	add(s.Pos(), s.Body.Lbrace+1, flatten(head, rw.src[rw.off(s.Pos()):rw.off(s.Body.Lbrace+1)]))
-	add(s.Body.Rbrace, s.Body.Rbrace+1, "} }")
+	if hasDef {
+		add(s.Body.Rbrace, s.Body.Rbrace+1, "} }")
+	} else {
+		// keeps the statement terminating when every clause is, as the select was
+		add(s.Body.Rbrace, s.Body.Rbrace+1, "default: panic(\"vrt: select without default returned no case\") } }")
+	}
 }
 
 func (rw *rewriter) isPure(e ast.Expr) bool {
